@@ -91,7 +91,8 @@ CHECKS = {
              "event sequence creates a second original, consuming events leave none, dead instances refuse every event (at most once); the strong count is the number of handles "
              "(instances + delegation helpers + lent clones). Tied to /repo by co-executing life-cycle sequences (exhaustive short ones + random), events on other threads, with "
              "Arc::strong_count observed after every step. "
-             "The alphabet includes Clone::clone_from (the old value of the target is torn down, the slot holds a non-original afterwards) and lent values that call the mock from their Drop.",
+             "The alphabet includes Clone::clone_from (the old value of the target is torn down, the slot holds a non-original afterwards) and lent values that call the mock from their Drop. "
+             "A clause configuration with responder-made errors (panics(), applies_unmocked() without a function) ties report() = FAILURE to recorded errors.",
         design_ref="DESIGN.md section 7, C09",
         technique="Coq proof (life-cycle invariants over all event sequences) + small-scope exhaustive and random co-execution"),
     "C11": dict(
@@ -119,7 +120,8 @@ CHECKS = {
              "Tied to /repo by (races) all interleavings of 2-3 threads racing for a slot on the real runtime under the controlled scheduler, (histories) live-value counts "
              "(constructed - dropped) after every step and after teardown, (type level) model well-typedness = rustc verdict for every type state x builder method x {Clone, non-Clone}. "
              "(composite) owned leaves inside Option/Result/Vec/Poll/tuples are requested through single-use and repeated-use paths with the C17 output model as oracle. "
-             "Composite single-use values (several slots emptied one after the other, not atomically) have one owner under every schedule: per value, deliveries + requests between two of its slots = [first slot empty], the slots such a request still needs are full, and when all requests have ended every emptied value was handed out (C12_single_use_value_has_one_owner, C12_raced_value_is_not_lost); raced on the real runtime with trait P { fn mt(&self, u8) -> (Uniq, &str, Uniq) }.",
+             "Composite single-use values (several slots emptied one after the other, not atomically) have one owner under every schedule: per value, deliveries + requests between two of its slots = [first slot empty], the slots such a request still needs are full, and when all requests have ended every emptied value was handed out (C12_single_use_value_has_one_owner, C12_raced_value_is_not_lost); raced on the real runtime with trait P { fn mt(&self, u8) -> (Uniq, &str, Uniq) }. "
+             "User code on the way of a value: a request that is answered runs none of the arguments' Debug impls (theorem C12_answered_request_runs_no_debug about Model/Run.v debug_runs); the harness method DB::db takes an argument whose Debug impl counts its runs, observed per call.",
         design_ref="DESIGN.md section 7, C12",
         technique="Coq proof (single-delivery invariant over all schedules; type-state lemmas) + scheduler-controlled races, drop-counter histories and a rustc accept/reject sweep"),
     "C13": dict(
@@ -140,7 +142,8 @@ CHECKS = {
              "(MirrorsCheck.v) - and (2) differential random scripts (short, zero, oversized, Interrupted, hard errors, EOF, Pending) through real upstream provided methods on a Unimock versus a plain "
              "struct, plus the Coq model for the transcribed bodies. "
              "Plus a mirrored local upstream trait with associated constants (default + override, default kept, no default) read by provided methods of the &self / &mut self / by-value kinds, and the receiver conversions of the delegation inventory. "
-             "A non-mirrored trait with empty default bodies and a mirrored trait with associated constants are driven on a plain implementor and on the mock; clauses on TerminationMock::report itself in the receiver part.",
+             "A non-mirrored trait with empty default bodies and a mirrored trait with associated constants are driven on a plain implementor and on the mock; clauses on TerminationMock::report itself in the receiver part. "
+             "Also ordered then()-series scripts replayed through provided methods, and repeated replies on the composite return shapes of the mirrored async traits (composite part).",
         design_ref="DESIGN.md section 7, C20",
         technique="Coq proof (induction on free-monad programs; assembler and slot invariant) + regenerated wiring table + differential co-execution of scripts"),
     "C05": dict(
